@@ -407,6 +407,20 @@ func init() {
 		"visited": func(e *Env, args []ast.Expr) Value {
 			av := e.eval(args[0])
 			vis, ok2 := e.st.ghost["range.visited"].(Scalar)
+			if _, isScalar := av.(Scalar); isScalar {
+				// key of a Go map range: the visited-set of the n-th map range of the function (default 1)
+				n := int64(1)
+				if len(args) > 1 {
+					if t := e.toTerm(e.eval(args[1])); t.IsInt() {
+						n = t.I.Int64()
+					}
+				}
+				vis, ok2 = e.st.ghost[fmt.Sprintf("range.visited.%d", n)].(Scalar)
+				if !ok2 {
+					// the range has not started on this path: nothing visited yet
+					return Scalar{False}
+				}
+			}
 			if sc, isScalar := av.(Scalar); isScalar && ok2 {
 				// key of a Go map range (int or string)
 				idx, okk := e.st.keyIndex(sc)
